@@ -67,6 +67,13 @@ def run(chk):
                     extra.append({"config": {"max": 1}, "term": {"dangling": dang},
                                   "calls": [{"op": "begin", "token": [97]}, {"op": op, "token": [97], "amount": amt}],
                                   "plan": {"exchanges": [okp0, okp0] + tail}})
+    # closing one of two open transactions refused by the terminal with every abort code there is: whatever the code, nothing is
+    # cleaned up while the other one is open
+    for code in range(256):
+        for op in ("commit", "cancel"):
+            extra.append({"config": {"max": 2 + code % 2}, "term": {"dangling": [[], [77]][code % 2]},
+                          "calls": [{"op": "begin", "token": [97]}, {"op": "begin", "token": [98]}, {"op": op, "token": [97], "amount": [1]}],
+                          "plan": {"exchanges": [okp0, okp0, {"o": "abort", "code": code}], "default": okp0}})
     # a terminal that is slow but answers (25 s, well inside the per-packet timeout) in one, or in each, exchange of the clean-up: the
     # query, the reversal of what it reports, the end of day - and intermediate statuses before the end of day's completion
     for op in ("commit", "cancel"):
